@@ -46,42 +46,87 @@ def long_options(prog, tf):
     raise AnalysisBroken("getopt_long option table not found in tools/")
 
 
+class _CodeDomain:
+    """a helper (instance, option code) interpreted for one concrete code: the sequence of library setter calls it makes"""
+
+    def __init__(self, prog, pname, value, lib_setters):
+        self.prog, self.pname, self.value, self.setters = prog, pname, value, lib_setters
+        self.ce = ConstEval(prog, {pname: value})
+        self.final = []
+
+    def copy(self, s): return s
+
+    def join(self, a, b):
+        return a if a == b else a + (("?", None),)      # two different call sequences for one code: not a function of the code
+
+    def equal(self, a, b): return a == b
+    def widen(self, o, n): return n
+
+    def decl(self, vd, s):
+        for c in kids(vd):
+            s = self.eval(c, s)
+        return s
+
+    def eval(self, e, s):
+        for c in walk(strip(e) or {}):
+            if c.get("kind") == "CallExpr" and callee_name(c) in self.setters:
+                a = call_args(c)
+                s = s + ((callee_name(c), self.ce.try_eval(a[1]) if len(a) > 1 else None),)
+        return s
+
+    def assume(self, e, t, s):
+        v = self.ce.try_eval(strip(e))
+        if v is not None and bool(v) != t:
+            return None
+        return s
+
+    def assume_case(self, cnd, case, s):
+        a, b = self.ce.try_eval(strip(cnd, casts=True)), self.ce.try_eval(case)
+        if a is not None and b is not None and a != b:
+            return None
+        return s
+
+    def assume_default(self, cnd, cases, s):
+        a = self.ce.try_eval(strip(cnd, casts=True))
+        if a is not None and any(self.ce.try_eval(c) == a for c in cases):
+            return None
+        return s
+
+    def ret(self, n, s):
+        self.final.append(s)
+
+
 def helper_map(prog, tf, lib_setters):
-    """{helper: {case value: [(setter, mode value)]}} for tool functions that switch on an option code and call setters"""
+    """{helper: {option code: [(setter, mode value)]}} for the tool functions (instance, code) that call library setters:
+    each is interpreted once per enumerator of the code's type (switch, if-chain or any mixture)"""
+    from valib.flow import Flow
     out = {}
-    ce = ConstEval(prog)
     for fn, f in tf.items():
         ps = prog.params(f)
         if len(ps) != 2:
             continue
-        for sw in walk(prog.body(f)):
-            if sw.get("kind") != "SwitchStmt" or ref_name(kids(sw)[0]) != ps[1]["name"]:
-                continue
-            body = kids(sw)[-1]
-            cases = {}
-            cur = []
-            open_labels = []
-            for st in kids(body):
-                labs = []
-                inner = st
-                while inner.get("kind") in ("CaseStmt", "DefaultStmt"):
-                    if inner["kind"] == "CaseStmt":
-                        labs.append(ce.try_eval(kids(inner)[0]))
-                    else:
-                        labs.append("default")
-                    inner = kids(inner)[-1]
-                if labs:
-                    open_labels = open_labels + labs      # fallthrough keeps earlier labels open
-                for c in walk(inner):
-                    if c.get("kind") == "CallExpr" and callee_name(c) in lib_setters:
-                        a = call_args(c)
-                        mode = ce.try_eval(a[1]) if len(a) > 1 else None
-                        for lab in open_labels:
-                            cases.setdefault(lab, []).append((callee_name(c), mode))
-                if any(m.get("kind") in ("BreakStmt", "ReturnStmt") for m in walk(inner)):
-                    open_labels = []
-            if cases:
-                out[fn] = cases
+        if not any(c.get("kind") == "CallExpr" and callee_name(c) in lib_setters for c in walk(prog.body(f))):
+            continue
+        qt = qtype(ps[1]).replace("enum ", "").strip()
+        members = prog.enum_members(qt)
+        if not members:
+            continue
+        cases = {}
+        for nm, val in members:
+            dom = _CodeDomain(prog, ps[1]["name"], val, lib_setters)
+            end = Flow(dom).function(prog, f, ())
+            finals = dom.final + ([end] if end is not None else [])
+            seqs = {tuple(x) for x in finals}
+            if len(seqs) == 1:
+                seq = list(seqs.pop())
+            elif not seqs:
+                seq = []
+            else:
+                seq = [("?", None)]
+            if seq:
+                cases[val] = seq
+        if cases:
+            out[fn] = cases
     return out
 
 
@@ -230,27 +275,54 @@ def run(chk, prog, tier):
                 loc_str(bstore) if bstore else loc_str(pf), "-b stores the number parsed from its argument as the chunk boundary",
                 expr_str(bstore) if bstore else "no store")
     # ---- SRC: stdin and FILE use the same instance and the matching variants ----------------------------------
-    asm_calls = [c for c in walk(prog.body(main)) if c.get("kind") == "CallExpr" and (callee_name(c) or "").startswith("asm_assemble")]
-    names = sorted(callee_name(c) for c in asm_calls)
+    # main and the tool helpers it calls (the stdin loop may live in a helper): arguments of a helper are resolved to what main passes
+    reach = {"main"}
+    work = ["main"]
+    while work:
+        for c in walk(prog.body(tf[work.pop()])):
+            if c.get("kind") == "CallExpr" and callee_name(c) in tf and callee_name(c) not in reach:
+                reach.add(callee_name(c))
+                work.append(callee_name(c))
+    call_site_of = {}
+    for fn in reach:
+        for c in walk(prog.body(tf[fn])):
+            if c.get("kind") == "CallExpr" and callee_name(c) in tf:
+                call_site_of.setdefault(callee_name(c), []).append(c)
+
+    def resolve(fn, e, depth=0):
+        """expression text of e in fn with parameters replaced by the arguments of fn's unique call site"""
+        e = strip(e, casts=True)
+        if fn != "main" and depth < 4 and e.get("kind") == "DeclRefExpr" and len(call_site_of.get(fn, [])) == 1:
+            ps = [p["name"] for p in prog.params(tf[fn])]
+            if ref_name(e) in ps:
+                site = call_site_of[fn][0]
+                caller = next(g for g in reach if any(x is site for x in walk(prog.body(tf[g]))))
+                return resolve(caller, call_args(site)[ps.index(ref_name(e))], depth + 1)
+        return expr_str(e)
+    asm_calls = [(fn, c) for fn in sorted(reach) for c in walk(prog.body(tf[fn]))
+                 if c.get("kind") == "CallExpr" and (callee_name(c) or "").startswith("asm_assemble")]
+    names = sorted(callee_name(c) for _, c in asm_calls)
     chk.require(names == sorted(["asm_assemble_file", "asm_assemble_file_counting_chunks", "asm_assemble_str", "asm_assemble_string_counting_chunks"]),
-                "SRC", "SRC/variants", loc_str(main), "main uses the file and the string variant of both the plain and the counting entry", str(names))
+                "SRC", "SRC/variants", loc_str(main), "asmline uses the file and the string variant of both the plain and the counting entry", str(names))
     inst = None
     for m in walk(prog.body(main)):
         if m.get("kind") == "VarDecl" and kids(m) and strip(kids(m)[-1], casts=True).get("kind") == "CallExpr" and \
                 callee_name(strip(kids(m)[-1], casts=True)) == "asm_create_instance":
             inst = m["name"]
-    for c in asm_calls:
+    for fn, c in asm_calls:
         a = call_args(c)
-        chk.require(ref_name(a[0]) == inst, "SRC", "SRC/instance/%s" % callee_name(c), loc_str(c), "%s works on the one instance main created" % callee_name(c), expr_str(a[0]))
+        chk.require(resolve(fn, a[0]) == inst, "SRC", "SRC/instance/%s" % callee_name(c), loc_str(c), "%s works on the one instance main created" % callee_name(c), resolve(fn, a[0]))
         if "counting" in callee_name(c):
-            chk.require(expr_str(strip(a[2], casts=True)).endswith("chunk_boundary"), "SRC", "SRC/boundary/%s" % callee_name(c), loc_str(c),
-                        "the counting call gets the -b value", expr_str(a[2]))
-    for m, parents in walk_with_parents(prog.body(main)):
-        if m.get("kind") == "ConditionalOperator" and any(x.get("kind") == "CallExpr" and (callee_name(x) or "").startswith("asm_assemble") for x in walk(m)):
-            t = [callee_name(x) for x in walk(kids(m)[1]) if x.get("kind") == "CallExpr"]
-            e = [callee_name(x) for x in walk(kids(m)[2]) if x.get("kind") == "CallExpr"]
-            ok = any("counting" in (x or "") for x in t) and not any("counting" in (x or "") for x in e) and "count" in expr_str(kids(m)[0])
-            chk.require(ok, "SRC", "SRC/select@%s" % loc_str(m), loc_str(m), "the counting variant is chosen exactly when -b was given", expr_str(kids(m)[0]))
+            chk.require(resolve(fn, a[2]).endswith("chunk_boundary"), "SRC", "SRC/boundary/%s" % callee_name(c), loc_str(c),
+                        "the counting call gets the -b value", resolve(fn, a[2]))
+    for fn in sorted(reach):
+        for m, parents in walk_with_parents(prog.body(tf[fn])):
+            if m.get("kind") == "ConditionalOperator" and any(x.get("kind") == "CallExpr" and (callee_name(x) or "").startswith("asm_assemble") for x in walk(m)):
+                t = [callee_name(x) for x in walk(kids(m)[1]) if x.get("kind") == "CallExpr"]
+                e = [callee_name(x) for x in walk(kids(m)[2]) if x.get("kind") == "CallExpr"]
+                ctext = resolve(fn, kids(m)[0])
+                ok = any("counting" in (x or "") for x in t) and not any("counting" in (x or "") for x in e) and "count" in ctext
+                chk.require(ok, "SRC", "SRC/select@%s" % loc_str(m), loc_str(m), "the counting variant is chosen exactly when -b was given", ctext)
     # ---- COUNTSUM: a per-line count is added to the total only after the counting call of that same line ------------
     from valib.flow import Flow
 
@@ -283,7 +355,7 @@ def run(chk, prog, tier):
             return s
         def assume(self, e, t, s): return s
         def ret(self, n, s): pass
-    for lp in walk(prog.body(main)):
+    for lp in [x for fn in sorted(reach) for x in walk(prog.body(tf[fn]))]:
         if lp.get("kind") in ("WhileStmt", "ForStmt", "DoStmt"):
             addr_vars = {ref_name(kids(strip(a))[0]) for c in walk(lp) if c.get("kind") == "CallExpr" and "counting" in (callee_name(c) or "")
                          for a in call_args(c) if strip(a).get("kind") == "UnaryOperator" and strip(a).get("opcode") == "&"}
@@ -302,8 +374,18 @@ def run(chk, prog, tier):
     for fn in sorted(tf):
         if any(c.get("kind") == "CallExpr" and callee_name(c) in kinds for c in walk(prog.body(tf[fn]))):
             kinds_here = dict(kinds)
+    def _returns_status(f):
+        """a tool helper hands a status on: it returns EXIT_FAILURE somewhere, or directly returns a status call"""
+        for r in walk(prog.body(f)):
+            if r.get("kind") == "ReturnStmt" and kids(r):
+                v = strip(kids(r)[0], casts=True)
+                if v.get("kind") == "CallExpr" and callee_name(v) in kinds:
+                    return True
+                if ConstEval(prog).try_eval(v) == 1 and "EXIT_FAILURE" in (prog.spelling_text(kids(r)[0]) or prog.text(kids(r)[0]) or ""):
+                    return True
+        return False
     tool_status = {fn: "status" for fn, f in tf.items() if fn != "main" and qtype(f).startswith("int") and
-                   any(c.get("kind") == "CallExpr" and callee_name(c) in kinds for c in walk(prog.body(f)))}
+                   any(c.get("kind") == "CallExpr" and callee_name(c) in kinds for c in walk(prog.body(f))) and _returns_status(f)}
     kinds.update(tool_status)
     nsite = 0
     for fn in sorted(tf):
